@@ -1141,13 +1141,19 @@ mod expression_parser {
     parser: &mut super::SourceParser,
     base: expr::E<()>,
   ) -> expr::E<()> {
+    // An expression started behind `( id`: one more level of nesting, like `parse_expression`.
+    if !parser.enter_nesting() {
+      return base;
+    }
     let e = parse_function_call_or_field_access_with_start(parser, base);
     let e = parse_concat_with_start(parser, e);
     let e = parse_factor_with_start(parser, e);
     let e = parse_term_with_start(parser, e);
     let e = parse_comparison_with_start(parser, e);
     let e = parse_conjunction_with_start(parser, e);
-    parse_disjunction_with_start(parser, e)
+    let e = parse_disjunction_with_start(parser, e);
+    parser.exit_nesting();
+    e
   }
 
   fn parse_base_expression(parser: &mut super::SourceParser) -> expr::E<()> {
